@@ -333,6 +333,90 @@ std::string checkStructure(const G &g, const Expect &x, ObsCounters &oc, bool ch
     return "";
 }
 
+// The observers a *result* graph is judged by when the property under test is about how that graph was produced
+// (conversion, constructor, subgraph, loader) and not about the observers themselves: size, edge count and
+// hasEdge for every ordered pair. Degree / matrix / iteration observers belong to C01, C02, C08.
+template <class G> std::string checkEdgesOnly(const G &g, const Expect &x, ObsCounters &oc) {
+    std::ostringstream m;
+    unsigned n = x.n;
+    try {
+        ++oc.sizes;
+        if (g.getSize() != n) {
+            m << "getSize: expected " << n << " got " << g.getSize();
+            return m.str();
+        }
+        size_t tc = x.totalCopies();
+        if (g.getEdgeNumber() != tc) {
+            m << "getEdgeNumber: expected " << tc << " got " << g.getEdgeNumber();
+            return m.str();
+        }
+        for (VertexIndex i = 0; i < n; ++i)
+            for (VertexIndex j = 0; j < n; ++j) {
+                ++oc.hasEdge;
+                bool want = x.has(i, j);
+                if (g.hasEdge(i, j) != want) {
+                    m << "hasEdge(" << i << "," << j << "): expected " << want << " got " << !want;
+                    return m.str();
+                }
+            }
+    } catch (std::exception &ex) {
+        return std::string("observers-threw: ") + ex.what();
+    }
+    return "";
+}
+
+// C08's own observers: vertex range-for yields 0..n-1 in order, edges() yields the model's edges exactly once
+// (one orientation per undirected edge, first <= second), nothing else.
+template <class G> std::string checkEnumeration(const G &g, const Expect &x, ObsCounters &oc) {
+    constexpr bool directed = IsDirected<G>::value;
+    std::ostringstream m;
+    unsigned n = x.n;
+    try {
+        ++oc.sizes;
+        if (g.getSize() != n) {
+            m << "getSize: expected " << n << " got " << g.getSize();
+            return m.str();
+        }
+        ++oc.vertexIter;
+        VertexIndex want = 0;
+        size_t steps = 0;
+        for (VertexIndex v : g) {
+            if (v != want || steps++ > (size_t)n + 2) {
+                m << "vertex-iteration: position " << want << " yields " << v;
+                return m.str();
+            }
+            ++want;
+        }
+        if (want != n) {
+            m << "vertex-iteration: yields " << want << " vertices, expected " << n;
+            return m.str();
+        }
+        std::vector<Edge> got;
+        size_t cap = x.totalCopies() * 2 + (size_t)n * n + 8;
+        if (!collectEdges(g, cap, got)) {
+            m << "edges(): enumeration did not end within " << cap << " steps";
+            return m.str();
+        }
+        oc.edgesIter += got.size() + 1;
+        if (!directed)
+            for (auto &e : got)
+                if (e.first > e.second) {
+                    m << "edges(): undirected edge yielded as (" << e.first << "," << e.second << ") with first > second";
+                    return m.str();
+                }
+        std::sort(got.begin(), got.end());
+        if (got != x.edgeMultiset()) {
+            m << "edges(): yields " << got.size() << " edges [";
+            for (auto &e : got) m << "(" << e.first << "," << e.second << ")";
+            m << "], denoted graph is " << x.str();
+            return m.str();
+        }
+    } catch (std::exception &ex) {
+        return std::string("enumeration-threw: ") + ex.what();
+    }
+    return "";
+}
+
 // Exact, order-sensitive snapshot of the neighbour lists (for "changes nothing"
 // clauses: a no-op must not even reorder a list).
 template <class G> std::vector<std::vector<VertexIndex>> orderedLists(const G &g) {
